@@ -9,7 +9,7 @@ import shutil
 import vlib
 from vlib import sh, BUILD, COQ
 
-HARNESS_TOOLS = ["purefh", "ledgerh", "gossiph", "rpch", "notaryh"]
+HARNESS_TOOLS = ["purefh", "ledgerh", "gossiph", "rpch", "notaryh", "conch"]
 
 
 def _tool(name, **kw):
@@ -422,7 +422,46 @@ def replay_C16(ctx, path):
     return 0
 
 
+# ------------------------------------------------------------------ C08
+def run_C08(ctx, tier):
+    tool = _tool("conch")
+    summ = os.path.join(ctx.work, "wedge_%s.json" % tier)
+    rc, out, err = sh([tool, "wedge", "-tier", tier, "-seed", str(ctx.seed), "-summary", summ], timeout=3000)
+    if rc != 0 or not os.path.exists(summ):
+        raise RuntimeError("conch wedge failed rc=%s %s %s" % (rc, out[-1500:], err[-1500:]))
+    s = json.load(open(summ))
+    sites = open(os.path.join(COQ, "Gen", "WalkerSites.v")).read()
+    nsites, nwriters = len(re.findall(r"^\s*WSite ", sites, re.M)), len(re.findall(r"^\s*GWriter ", sites, re.M))
+    viol = [{"key": v["key"], "what": v["what"][:500]} for v in (s.get("violations") or [])]
+    return {"evaluations": s["evaluations"], "distinct_nontrivial": s["distinct_nontrivial"],
+            "rule": "on real AccountingBook instances: each of propose / gossip-add / tip validation / balance / history with a counting context that reports cancellation at its k-th poll, "
+                    "k = 0..n+2 over an n-vertex history; synchronous truncation of 1000+ vertex histories (first internal walk exits early at the cut) and truncation cancelled at poll "
+                    "0,1,500,999,1000,1001; DAG streaming to a slow consumer while 30 proposals arrive, and to a consumer that goes away; after EVERY scenario a probe proposal must return within 5 s "
+                    "and the goroutine profile must show no goroutine parked in dag.walkAncestors; non-trivial = scenarios in which the operation was actually cut short or ran concurrently",
+            "samples": s.get("samples", [])[:2], "mismatches": [], "violations": viol,
+            "extra": {"branches_reached": s.get("kinds", {}), "walker_sites_translated": nsites, "graph_write_sites_translated": nwriters,
+                      "comparison": "the model's inputs (Gen/WalkerSites.v: drain discipline, signal-channel uses, error checks, ledger lock held at every walk and graph write) are regenerated from "
+                                    "src/accountant by the Go-AST translator on every run and C08_tree_discipline is re-proved over them; the dynamic sweep checks the protocol's observable consequence on the real code"},
+            "assumptions": ["heimdalr/dag AncestorsWalker behaves as Model/Walker.v says (read lock held for the whole walk, unbuffered id channel, signal polled between sends) - library code, pinned v1.3.1",
+                            "sync.RWMutex blocks new readers while a writer waits (Model/StreamLock.v)",
+                            "translator is syntactic (go/ast): locks are Lock();defer Unlock() pairs at the top of a function or goroutine literal; unexported methods inherit the locks held at all call sites",
+                            "operations other than walks terminate (badger calls, signature checks) - not modelled"]}
+
+
+def replay_C08(ctx, path):
+    r = json.load(open(path))
+    print(json.dumps(r, indent=1)[:3000])
+    res = run_C08(ctx, "quick")
+    want = (r.get("violation") or {}).get("key")
+    if (want and want in {v["key"] for v in res["violations"]}) or (not want and res["violations"]):
+        print("VIOLATION property=C08 replay=%s" % path)
+        return 1
+    print("replay: not reproduced on the current tree")
+    return 0
+
+
 PROPS = {
+    "C08": {"run": run_C08, "replay": replay_C08},
     "C05": {"run": run_C05, "replay": replay_C05},
     "C01": make_ledger_check("C01", ["c01.", "res.", "op."]),
     "C02": make_ledger_check("C02", ["c02.", "op."]),
